@@ -158,7 +158,13 @@ impl<'a> sval_ref::ValueRef<'a> for EmitValue<'a> {
     fn stream_ref<S: sval::Stream<'a> + ?Sized>(&self, stream: &mut S) -> sval::Result {
         struct AnyStream<S> {
             stream: S,
+            // Set while streaming a map key
+            // OTLP map keys are always text, so keys of any other type are rendered as text
             in_map_key: bool,
+            // The depth of sequences and maps within a map key
+            key_depth: usize,
+            // Whether the next element within a sequence or map key needs a separator
+            key_sep: bool,
         }
 
         impl<'sval, S: sval::Stream<'sval>> AnyStream<S> {
@@ -175,16 +181,77 @@ impl<'a> sval_ref::ValueRef<'a> for EmitValue<'a> {
                 self.stream.tagged_end(None, Some(label), Some(index))?;
                 self.stream.enum_end(None, None, None)
             }
+
+            // Render a non-text map key, or a part of one, as text
+            fn key_fragment(&mut self, fragment: impl fmt::Display) -> sval::Result {
+                if self.key_depth == 0 {
+                    sval::stream_display(&mut self.stream, fragment)
+                } else {
+                    struct Fragments<'a, S>(&'a mut S);
+
+                    impl<'a, 'sval, S: sval::Stream<'sval>> fmt::Write for Fragments<'a, S> {
+                        fn write_str(&mut self, fragment: &str) -> fmt::Result {
+                            self.0
+                                .text_fragment_computed(fragment)
+                                .map_err(|_| fmt::Error)
+                        }
+                    }
+
+                    fmt::Write::write_fmt(
+                        &mut Fragments(&mut self.stream),
+                        format_args!("{}", fragment),
+                    )
+                    .map_err(|_| sval::Error::new())
+                }
+            }
+
+            // Begin a sequence or map within a map key
+            fn key_nested_begin(&mut self, open: &str) -> sval::Result {
+                if self.key_depth == 0 {
+                    self.stream.text_begin(None)?;
+                }
+
+                self.key_depth += 1;
+                self.key_sep = false;
+
+                self.stream.text_fragment_computed(open)
+            }
+
+            // End a sequence or map within a map key
+            fn key_nested_end(&mut self, close: &str) -> sval::Result {
+                self.stream.text_fragment_computed(close)?;
+
+                self.key_depth -= 1;
+
+                if self.key_depth == 0 {
+                    self.stream.text_end()?;
+                }
+
+                Ok(())
+            }
+
+            // Begin an element of a sequence or map within a map key
+            fn key_nested_value_begin(&mut self) -> sval::Result {
+                if self.key_sep {
+                    self.stream.text_fragment_computed(",")?;
+                }
+
+                Ok(())
+            }
         }
 
         impl<'sval, S: sval::Stream<'sval>> sval::Stream<'sval> for AnyStream<S> {
             fn null(&mut self) -> sval::Result {
+                if self.in_map_key && self.key_depth > 0 {
+                    return self.key_fragment("null");
+                }
+
                 self.stream.null()
             }
 
             fn bool(&mut self, value: bool) -> sval::Result {
                 if self.in_map_key {
-                    todo!()
+                    return self.key_fragment(value);
                 }
 
                 self.any_value_begin(&ANY_VALUE_BOOL_LABEL, &ANY_VALUE_BOOL_INDEX)?;
@@ -193,6 +260,10 @@ impl<'a> sval_ref::ValueRef<'a> for EmitValue<'a> {
             }
 
             fn text_begin(&mut self, num_bytes: Option<usize>) -> sval::Result {
+                if self.in_map_key && self.key_depth > 0 {
+                    return Ok(());
+                }
+
                 if !self.in_map_key {
                     self.any_value_begin(&ANY_VALUE_STRING_LABEL, &ANY_VALUE_STRING_INDEX)?;
                 }
@@ -209,6 +280,10 @@ impl<'a> sval_ref::ValueRef<'a> for EmitValue<'a> {
             }
 
             fn text_end(&mut self) -> sval::Result {
+                if self.in_map_key && self.key_depth > 0 {
+                    return Ok(());
+                }
+
                 self.stream.text_end()?;
 
                 if !self.in_map_key {
@@ -220,7 +295,7 @@ impl<'a> sval_ref::ValueRef<'a> for EmitValue<'a> {
 
             fn i64(&mut self, value: i64) -> sval::Result {
                 if self.in_map_key {
-                    todo!()
+                    return self.key_fragment(value);
                 }
 
                 self.any_value_begin(&ANY_VALUE_INT_LABEL, &ANY_VALUE_INT_INDEX)?;
@@ -230,7 +305,7 @@ impl<'a> sval_ref::ValueRef<'a> for EmitValue<'a> {
 
             fn f64(&mut self, value: f64) -> sval::Result {
                 if self.in_map_key {
-                    todo!()
+                    return self.key_fragment(value);
                 }
 
                 self.any_value_begin(&ANY_VALUE_DOUBLE_LABEL, &ANY_VALUE_DOUBLE_INDEX)?;
@@ -240,7 +315,12 @@ impl<'a> sval_ref::ValueRef<'a> for EmitValue<'a> {
 
             fn binary_begin(&mut self, num_bytes: Option<usize>) -> sval::Result {
                 if self.in_map_key {
-                    todo!()
+                    // Binary keys are rendered as hex
+                    return if self.key_depth == 0 {
+                        self.stream.text_begin(None)
+                    } else {
+                        Ok(())
+                    };
                 }
 
                 self.any_value_begin(&ANY_VALUE_BYTES_LABEL, &ANY_VALUE_BYTES_INDEX)?;
@@ -248,21 +328,47 @@ impl<'a> sval_ref::ValueRef<'a> for EmitValue<'a> {
             }
 
             fn binary_fragment(&mut self, fragment: &'sval [u8]) -> sval::Result {
+                if self.in_map_key {
+                    return self.binary_fragment_computed(fragment);
+                }
+
                 self.stream.binary_fragment(fragment)
             }
 
             fn binary_fragment_computed(&mut self, fragment: &[u8]) -> sval::Result {
+                if self.in_map_key {
+                    const HEX: &[u8; 16] = b"0123456789abcdef";
+
+                    for b in fragment {
+                        let hex = [HEX[(b >> 4) as usize], HEX[(b & 0xf) as usize]];
+
+                        self.stream.text_fragment_computed(
+                            core::str::from_utf8(&hex).map_err(|_| sval::Error::new())?,
+                        )?;
+                    }
+
+                    return Ok(());
+                }
+
                 self.stream.binary_fragment_computed(fragment)
             }
 
             fn binary_end(&mut self) -> sval::Result {
+                if self.in_map_key {
+                    return if self.key_depth == 0 {
+                        self.stream.text_end()
+                    } else {
+                        Ok(())
+                    };
+                }
+
                 self.stream.binary_end()?;
                 self.any_value_end(&ANY_VALUE_BYTES_LABEL, &ANY_VALUE_BYTES_INDEX)
             }
 
             fn seq_begin(&mut self, num_entries: Option<usize>) -> sval::Result {
                 if self.in_map_key {
-                    todo!()
+                    return self.key_nested_begin("[");
                 }
 
                 self.any_value_begin(&ANY_VALUE_ARRAY_LABEL, &ANY_VALUE_ARRAY_INDEX)?;
@@ -276,14 +382,28 @@ impl<'a> sval_ref::ValueRef<'a> for EmitValue<'a> {
             }
 
             fn seq_value_begin(&mut self) -> sval::Result {
+                if self.in_map_key {
+                    return self.key_nested_value_begin();
+                }
+
                 self.stream.seq_value_begin()
             }
 
             fn seq_value_end(&mut self) -> sval::Result {
+                if self.in_map_key {
+                    self.key_sep = true;
+
+                    return Ok(());
+                }
+
                 self.stream.seq_value_end()
             }
 
             fn seq_end(&mut self) -> sval::Result {
+                if self.in_map_key {
+                    return self.key_nested_end("]");
+                }
+
                 self.stream.seq_end()?;
                 self.stream.record_tuple_value_end(
                     None,
@@ -296,7 +416,7 @@ impl<'a> sval_ref::ValueRef<'a> for EmitValue<'a> {
 
             fn map_begin(&mut self, num_entries: Option<usize>) -> sval::Result {
                 if self.in_map_key {
-                    todo!()
+                    return self.key_nested_begin("{");
                 }
 
                 self.any_value_begin(&ANY_VALUE_KVLIST_LABEL, &ANY_VALUE_KVLIST_INDEX)?;
@@ -310,6 +430,10 @@ impl<'a> sval_ref::ValueRef<'a> for EmitValue<'a> {
             }
 
             fn map_key_begin(&mut self) -> sval::Result {
+                if self.in_map_key {
+                    return self.key_nested_value_begin();
+                }
+
                 self.in_map_key = true;
 
                 self.stream.seq_value_begin()?;
@@ -322,6 +446,10 @@ impl<'a> sval_ref::ValueRef<'a> for EmitValue<'a> {
             }
 
             fn map_key_end(&mut self) -> sval::Result {
+                if self.key_depth > 0 {
+                    return self.stream.text_fragment_computed(":");
+                }
+
                 self.in_map_key = false;
 
                 self.stream
@@ -329,6 +457,10 @@ impl<'a> sval_ref::ValueRef<'a> for EmitValue<'a> {
             }
 
             fn map_value_begin(&mut self) -> sval::Result {
+                if self.in_map_key {
+                    return Ok(());
+                }
+
                 self.stream.record_tuple_value_begin(
                     None,
                     &KEY_VALUE_VALUE_LABEL,
@@ -337,6 +469,12 @@ impl<'a> sval_ref::ValueRef<'a> for EmitValue<'a> {
             }
 
             fn map_value_end(&mut self) -> sval::Result {
+                if self.in_map_key {
+                    self.key_sep = true;
+
+                    return Ok(());
+                }
+
                 self.stream.record_tuple_value_end(
                     None,
                     &KEY_VALUE_VALUE_LABEL,
@@ -347,6 +485,10 @@ impl<'a> sval_ref::ValueRef<'a> for EmitValue<'a> {
             }
 
             fn map_end(&mut self) -> sval::Result {
+                if self.in_map_key {
+                    return self.key_nested_end("}");
+                }
+
                 self.stream.seq_end()?;
                 self.stream.record_tuple_value_end(
                     None,
@@ -362,6 +504,8 @@ impl<'a> sval_ref::ValueRef<'a> for EmitValue<'a> {
             &mut AnyStream {
                 stream,
                 in_map_key: false,
+                key_depth: 0,
+                key_sep: false,
             },
             &self.0,
         )
@@ -466,6 +610,54 @@ mod tests {
                 ("a".into(), int_value(1)),
                 ("b".into(), int_value(2)),
                 ("c".into(), int_value(3)),
+            ]),
+            de
+        );
+    }
+
+    #[test]
+    fn encode_kvlist_non_text_keys() {
+        let de =
+            common::AnyValue::decode(encode(emit::Value::capture_sval(&sval::MapSlice::new(&[
+                (1, "a"),
+                (-2, "b"),
+            ]))))
+            .unwrap();
+
+        assert_eq!(
+            kvlist_value([
+                ("1".into(), string_value("a")),
+                ("-2".into(), string_value("b")),
+            ]),
+            de
+        );
+
+        let de =
+            common::AnyValue::decode(encode(emit::Value::capture_sval(&sval::MapSlice::new(&[
+                (true, 1.5),
+                (false, 2.5),
+            ]))))
+            .unwrap();
+
+        assert_eq!(
+            kvlist_value([
+                ("true".into(), double_value(1.5)),
+                ("false".into(), double_value(2.5)),
+            ]),
+            de
+        );
+
+        let de =
+            common::AnyValue::decode(encode(emit::Value::capture_sval(&sval::MapSlice::new(&[
+                ((1, "a"), true),
+                ((2, "b"), false),
+            ]))))
+            .unwrap();
+
+        assert_eq!(
+            kvlist_value([
+                ("[1,a]".into(), bool_value(true)),
+                ("[2,b]".into(), bool_value(false)),
             ]),
             de
         );
